@@ -17,6 +17,7 @@ import IgVerif.Model.Determinism
 import IgVerif.Model.Macro
 import IgVerif.Model.Export
 import IgVerif.Model.Comments
+import IgVerif.Model.Wrap
 /-! `igdriver <model>`: reads one op per line on stdin, prints one answer per line.
 Byte strings are hex ("-" = empty). -/
 open IgVerif
@@ -694,6 +695,20 @@ def commentsStep (_ : Unit) (toks : List String) : IO (Unit × String) := do
     return ((), " ".intercalate (log.map fun p => s!"{p.1}:" ++ (match p.2 with | some i => toString i | none => "-")))
   | _ => return ((), "bad-op")
 
+/-! ### wrap -/
+def wrapStep (_ : Unit) (toks : List String) : IO (Unit × String) := do
+  match toks with
+  | ["remap", cat] =>
+    let c : Option Wr.Cat := match cat with
+      | "simple" => some .simple | "pointer" => some .pointer | "reference" => some .reference | "struct" => some .structValue
+      | "void" => some .voidT | "other" => some .other | _ => none
+    match c with
+    | some c => return ((), match Wr.remapParameter c with
+        | some .unchanged => "unchanged" | some .referenceToPointer => "pointer-to-referee" | some .concreteToPointer => "pointer-to-object" | none => "refused")
+    | none => return ((), "bad-op")
+  | ["arities", n, d] => return ((), " ".intercalate ((Wr.wrapperArities (n.toNat?.getD 0) (d.toNat?.getD 0)).map toString))
+  | _ => return ((), "bad-op")
+
 def main (args : List String) : IO UInt32 := do
   let stdin ← IO.getStdin
   match args with
@@ -713,4 +728,5 @@ def main (args : List String) : IO UInt32 := do
   | ["macro"] => loop stdin macroStep (); return 0
   | ["export"] => loop stdin exportStep (); return 0
   | ["comments"] => loop stdin commentsStep (); return 0
+  | ["wrap"] => loop stdin wrapStep (); return 0
   | _ => IO.eprintln "usage: igdriver <model>"; return 2
